@@ -103,3 +103,112 @@ def interleave(defs, seed, mode):
                               f"{bad[0]} at {env}"})
                 return n, fails
     return n, fails
+
+
+def _snapshot(uim, pn, sens, sn, cms):
+    """structural fingerprint of everything the caller handed over (sympy srepr is exact and order-stable for dict items)"""
+    import sympy
+    sr = sympy.srepr
+
+    def dd(m):
+        return [(sr(k) if not isinstance(k, str) else k, dd(v) if isinstance(v, dict) else (sr(v) if hasattr(v, "free_symbols") else repr(v)))
+                for k, v in m.items()]
+
+    def coll(c):
+        return [sr(x) for x in (sorted(c, key=str) if isinstance(c, (set, frozenset)) else list(c))]
+
+    return {"state_model": dd(uim.state_model), "state": coll(uim.state), "control": coll(uim.control), "calibration": coll(uim.calibration),
+            "dt": sr(uim.dt), "process_noise": dd(pn), "sensor_models": dd(sens), "sensor_noises": dd(sn),
+            "calibration_maps": [dd(c) for c in cms]}
+
+
+def shared_inputs(d, seed, aspects=("model", "jacobians", "predict", "update")):
+    """ONE set of caller-side objects (ui.Model, process-noise dict, sensor-model dict, sensor-noise dict) is compiled several
+    times with DIFFERENT calibration maps and configurations; every compiled object must compute its own calibration's model
+    (checked right after compiling and again after all were compiled). Whether compiling modified what the caller handed over is
+    noted in the message of a wrong value (it is the usual cause) but is not a violation by itself. Returns (n, fails)."""
+    from formak import python as fpy
+    from fv import space
+    from fv.ekfref import RefEKF, cov_menu
+
+    uim = pyimpl.ui_model(d)
+    pn, sens, sn = pyimpl.pnoise(d), pyimpl.sensors(d), pyimpl.snoise(d)
+    cal_names = [k for k, _ in d["calmap"]]
+    variants = []
+    for vi, (shift, cse) in enumerate([(0.0, True), (1.75, False), (-0.875, True), (0.0, False)]):
+        cm = [[k, v + shift * (1 + 0.5 * i)] for i, (k, v) in enumerate(d["calmap"])]
+        variants.append((dict(d, calmap=cm, name=f"{d['name']}#cal{vi}"), cse))
+    cms = [{pyimpl.sym(k, d.get("assume")): v for k, v in dv["calmap"]} for dv, _ in variants]
+    snap0 = _snapshot(uim, pn, sens, sn, cms)
+    fails, n = [], 0
+    built = []
+    note = [""]
+
+    def fail(key, what):
+        if not any(f["key"] == key for f in fails):
+            fails.append({"key": key, "what": f"{d['name']}: {what}{note[0]}"})
+
+    def check(idx, when):
+        nonlocal n
+        dv, cse, mdl, ekf = built[idx]
+        ref = RefEKF(dv)
+        P = cov_menu(len(ref.st), "quick")[2][1]
+        for env in space.some_points(ref.st + ref.ct, 2, seed + idx, dts=(0.125, -0.25)):
+            full = ref.env(env)
+            try:
+                fx = ref.fx(full)
+            except R.Singular:
+                continue
+            tag = f"compile #{idx} of the same ui.Model (calibration {dict(dv['calmap'])}, cse={cse}), checked {when}"
+            try:
+                if "model" in aspects:
+                    out = pyimpl.vec_by_name(mdl.model(env["dt"], mdl.State(**{s: env[s] for s in ref.st}), mdl.Control(**{s: env[s] for s in ref.ct})))
+                    n += 1
+                    for i, s in enumerate(ref.st):
+                        if not pyimpl.close(out[s], fx[i], REL):
+                            fail("shared-inputs:model", f"{tag}: state '{s}' = {out[s]!r}, symbolic value {float(fx[i])!r} at {env}")
+                if "jacobians" in aspects:
+                    st = ekf.State(**{s: env[s] for s in ref.st})
+                    ct = ekf.Control(**{s: env[s] for s in ref.ct})
+                    G, Gr = ekf.process_jacobian(env["dt"], st, ct), ref.G(full)
+                    n += 1
+                    if any(not pyimpl.close(G[i, j], Gr[i][j], REL) for i in range(len(ref.st)) for j in range(len(ref.st))):
+                        fail("shared-inputs:process_jacobian", f"{tag}: process_jacobian {G.tolist()} != true partials {R.tofloat(Gr)} at {env}")
+                    for key in sorted(ref.h):
+                        H, Hr = ekf.sensor_jacobian(key, st), ref.H(key, full)
+                        n += 1
+                        if any(not pyimpl.close(H[i, j], Hr[i][j], REL) for i in range(len(Hr)) for j in range(len(ref.st))):
+                            fail("shared-inputs:sensor_jacobian", f"{tag}: sensor_jacobian[{key}] {H.tolist()} != true partials {R.tofloat(Hr)} at {env}")
+                if "predict" in aspects:
+                    bad = predict_fails(ekf, ref, env, P)
+                    n += 1
+                    if bad:
+                        fail("shared-inputs:predict", f"{tag}: {bad[0]} at {env}")
+                if "update" in aspects:
+                    for key in sorted(ref.h):
+                        bad = update_fails(ekf, ref, key, env, P, 0.25)
+                        n += 1
+                        if bad:
+                            fail("shared-inputs:update", f"{tag}: {bad[0]} at {env}")
+            except Exception as e:
+                fail(f"shared-inputs:raises:{type(e).__name__}", f"{tag}: {type(e).__name__}: {str(e)[:200]}")
+                return
+
+    for idx, ((dv, cse), cm) in enumerate(zip(variants, cms)):
+        cfg = pyimpl.config({"cse": cse, "innovation_filtering": None})
+        try:
+            mdl = fpy.compile(uim, cm, config=cfg)
+            ekf = fpy.compile_ekf(uim, pn, sens, sn, cm, config=cfg)
+        except Exception as e:
+            fail(f"shared-inputs:compile-raises:{type(e).__name__}", f"compile #{idx} of the same ui.Model raised {type(e).__name__}: {str(e)[:200]}")
+            break
+        built.append((dv, cse, mdl, ekf))
+        snap = _snapshot(uim, pn, sens, sn, cms)
+        # not a violation on its own (no property forbids it); it is reported WITH a wrong value below, as the explanation
+        modified = [k for k in snap0 if snap[k] != snap0[k]]
+        if modified and not note[0]:
+            note[0] = f" [compile #{idx} (cse={cse}) modified the caller's {', '.join(modified)}]"
+        check(idx, "right after compiling")
+    for idx in range(len(built)):
+        check(idx, "after all were compiled")
+    return n, fails
